@@ -26,6 +26,22 @@ impl DiagnosticManager {
         self.diagnostics.push(Box::new(fake_diag));
     }
 
+    /// Remove diagnostics that repeat an earlier one: same kind, same location
+    /// and same text. Several sources (two call sites, two labels of one
+    /// function) can lead a lint to the same instruction.
+    pub fn dedup(&mut self) {
+        let mut seen = std::collections::BTreeSet::new();
+        self.diagnostics.retain(|d| {
+            seen.insert((
+                d.get_error_code(),
+                d.file(),
+                d.range(),
+                d.get_title(),
+                d.get_long_description(),
+            ))
+        });
+    }
+
     #[must_use]
     pub fn len(&self) -> usize {
         self.diagnostics.len()
